@@ -133,6 +133,16 @@ def impl(py):
     else:
         f = Force(fopt)
         f.nodes(list(nodes2))
+    if (len(labels) + int(bool(prev))) % 2 == 0:
+        # half of the cases: another engine and another distributor with other options are built
+        # (and used) between the configuration of the observed engine and its compute(); engines
+        # share nothing, so the reported layering must not change (seed C06-b: one module-level
+        # option dict behind every distributor)
+        other = Force({"algorithm": "simple", "minPos": 0, "maxPos": 77, "density": 0.4, "nodeSpacing": 11, "stubWidth": 7})
+        other.nodes([Node(5 * i, 9) for i in range(6)])
+        other.compute()
+        Distributor({"algorithm": "none"})
+        Distributor()
     f.compute()
     got = f.getLayers()
     out["force"] = None if got is None else _dump_layers(got, roots2)
